@@ -478,10 +478,7 @@ def dedupBytes : List Bytes → List Bytes
 /-- (as found) an emitted vendor attribute whose OID is empty: `attr.OID[0]` panics -/
 def vendorAttrPanics (a : Attribute) : Bool := hasTemplate a.typ && a.oid.isEmpty
 
-/-- Known limits of the model (see Props/C17 `names_wellformed`, `dot_imports_exact`):
-    * the format gate covers the dictionary's own attributes only: a `-ref` option whose name normalises to
-      an identifier starting with a digit makes go/format refuse the text, the model still answers `.ok`
-      (excluded by `extWellFormed` / the hypothesis of `names_wellformed`);
+/-- Known limits of the model (see Props/C17 `dot_imports_exact`):
     * `imports` lists the dot imports in the order of the (sorted) external attributes, de-duplicated;
       go/format then sorts that import group by path.  As a set it is the same (the driver compares the
       sorted rendering). -/
@@ -507,6 +504,11 @@ def generate (cfg : Cfg) (d : Dictionary) (o : Options) : Except Err Output := d
   if attrs.any (fun a => !lexesAsIdent (identifier a.name) || (isIntKind a.typ && (identifier a.name).isEmpty)) then throw .format
   if evs.any (fun v => v.attrs.any (fun a => hasTemplate a.typ &&
       (!lexesAsIdent (identifier a.name) || (isIntKind a.typ && (identifier a.name).isEmpty)))) then throw .format
+  -- an external attribute (`-ref NAME=path`) with at least one VALUE gets `<id>_Strings[<id>_Value_<v>] = "…"` and
+  -- `<id>_Value_<v> <id> = n`: not Go when `<id>` starts with a digit (`-ref -1=p`: `1_Strings[…`).  An EMPTY
+  -- `<id>` (`-ref -=p`) is accepted: `_Strings[_Value_X] = "x"`, `_Value_X = 1`.  Without VALUEs nothing but
+  -- `func init() {}` / `const ()` is emitted, whatever the name.
+  if exts.any (fun e => !(extVals e).isEmpty && !lexesAsIdent (identifier e.1)) then throw .format
   -- emission
   -- `if len(vendors) > 0 { baseImports["errors"] }`: the vendor helpers report malformed attributes
   let declared := checked.flatMap declaredImports ++ vimps ++ (if !evs.isEmpty then [Imp.std (bs "errors")] else [])
